@@ -55,7 +55,8 @@ OutIds(k) == Range(T.outs[k].ids)
 FinalStateMayBe(x) == IF Len(T.outs) = 0 \/ T.res # "ok" THEN TRUE ELSE x \in OutIds(Len(T.outs))
 ObservedAcc(i, c) ==
   {acc \in BOOLEAN : LET nx == IF acc THEN i ELSE c IN
-                       IF i < NS THEN nx \in BaseIds(i + 1) ELSE FinalStateMayBe(nx)}
+                       IF i < NS THEN (BaseIds(i + 1) = {} \/ nx \in BaseIds(i + 1))   \* (an unmatched proposal is reported at i + 1)
+                       ELSE FinalStateMayBe(nx)}
 
 Init == /\ tid \in 1..Len(Traces) /\ l = 1 /\ cur = 0 /\ chain = <<>>
         /\ verdict = "ok" /\ drift = "" /\ done = FALSE
@@ -90,10 +91,11 @@ Step ==
      THEN \* not a valid start: outside the statement; the code refuses +-inf starts
           Stop("ok", IF T.t0 \in {"-inf", "inf"} /\ T.res # "raise" THEN "M:infinite-start-is-refused" ELSE "")
      ELSE IF l > NS THEN Stop(JudgeEndP, JudgeEndM)
+     ELSE IF BaseIds(l) = {} THEN Stop("P:proposal-is-a-state-plus-sigma-z", "")
      ELSE IF cur \notin BaseIds(l) THEN Stop("P:proposal-is-current-plus-sigma-z", "")
      ELSE LET obs == ObservedAcc(l, cur)
               ok == obs \cap AllowedAcc(l, cur)
-          IN IF obs = {} THEN Stop("P:state-is-previous-or-proposal", "")
+          IN IF obs = {} THEN Stop(IF l < NS THEN "P:proposal-is-current-plus-sigma-z" ELSE "P:state-is-previous-or-proposal", "")
              ELSE IF ok = {} THEN Stop("P:accept-iff", JudgeStepM(l, cur))
              ELSE \E acc \in ok :
                     LET nx == IF acc THEN l ELSE cur IN
